@@ -24,6 +24,18 @@ func (t *Table) hasTrigger(ledger, function string) bool {
 	return false
 }
 
+// firing counts the installed triggers running that function for a row of the ledger: every CREATE TRIGGER is a trigger
+// of its own, and one whose WHEN clause does not name a ledger fires for the rows of every ledger of the bucket.
+func (t *Table) firing(ledger, function string) int {
+	n := 0
+	for _, tr := range t.Triggers {
+		if tr.Function == function && (tr.Ledger == "" || tr.Ledger == ledger) {
+			n++
+		}
+	}
+	return n
+}
+
 func (c *execCtx) installTrigger(m *Misc) error {
 	parts := strings.Split(strings.ReplaceAll(m.Args["table"], `"`, ""), ".")
 	if len(parts) != 2 {
@@ -148,7 +160,7 @@ func (c *execCtx) afterInsert(t *Table, r *Row) error {
 		}
 	case "moves":
 		ledger := txt(r.vals[t.col("ledger")])
-		if t.hasTrigger(ledger, "update_effective_volumes") {
+		for i, n := 0, t.firing(ledger, "update_effective_volumes"); i < n; i++ {
 			c.updateEffectiveVolumes(t, r)
 		}
 	}
